@@ -1,5 +1,5 @@
 """Sidecar contracts: which real function is checked against which specification."""
-from pyvc.verify import Contract, STR, INT, BOOL, OPT
+from pyvc.verify import Contract, Cut, STR, INT, BOOL, OPT
 
 from . import spec_parse
 
@@ -23,10 +23,20 @@ add(Contract(
 add(Contract(
     "yarl._parse:split_url", [("url", STR)], spec=spec_parse.split_url,
     raises=(ValueError,), props=("C07", "C19"),
-    loops={0: "all_chars_in(__seq[:__k], SCHEME_TAIL)"},
+    loops={1: "all_chars_in(__seq[:__k], SCHEME_TAIL)"},
+    cuts=[
+        Cut("scheme = netloc = query = fragment = ''", "cleaned", ["url == S.c"]),
+        Cut("has_hash = '#' in url", "scheme",
+            ["url == S.rest", "scheme == S.scheme", "netloc == ''", "query == ''", "fragment == ''"]),
+        Cut("if has_hash:", "authority",
+            ["url == S.rest", "scheme == S.scheme", "netloc == S.netloc", "query == ''", "fragment == ''",
+             "has_hash == ('#' in S.rest)", "has_question_mark == ('?' in S.rest)"],
+            types={"has_hash": "bool", "has_question_mark": "bool"}),
+    ],
     note="RFC 3986 Appendix B on the cleaned input"))
 
 add(Contract(
     "yarl._parse:unsplit_result",
     [("scheme", STR), ("netloc", STR), ("url", STR), ("query", STR), ("fragment", STR)],
-    spec=spec_parse.unsplit_result, props=("C07", "C03")))
+    spec=spec_parse.unsplit_result, requires=spec_parse.unsplit_requires, props=("C07", "C03"),
+    note="precondition from the call sites: a path under an authority is empty or rooted"))
